@@ -1,11 +1,13 @@
 // C17 (sequential obligations): cache transparency and memo invalidation.
 //  MODE_LFRU: real SmallLFRUCache<uint64,uint64,CSIZE> under an arbitrary non-decreasing clock: for every request sequence the value
 //             returned for key k equals factory(k) of a pure factory (the cache never changes what a lookup returns).
+//  MODE_REUSE: decoding into an object that already carries a memoised hash never leaves the old hash behind.
 //  MODE_MEMO: every VbkBlock / BtcBlock setter empties the memoised hash (a stale precomputed hash is never served).
 #include <veriblock/pop/cache/small_lfru_cache.hpp>
 #include <veriblock/pop/entities/btcblock.hpp>
 #include <veriblock/pop/entities/vbkblock.hpp>
 #include <veriblock/pop/time.hpp>
+#include <veriblock/pop/serde.hpp>
 using namespace altintegration;
 #ifndef CSIZE
 #define CSIZE 2
@@ -64,6 +66,39 @@ extern "C" __attribute__((noinline)) void h_cache() {
     }
     uint8_t nz = 0; for (int i = 0; i < 32; i++) nz |= b.hash_.data()[i];
     verif_check(nz == 0, 20 + (int)op);
+  }
+#elif defined(MODE_REUSE)
+  // an object that already carries a memoised hash is REUSED as the output of a decoder: afterwards the memo is the precalculated
+  // hash handed to the decoder, or empty (recomputed on demand) - never the hash of the previous header
+  {
+    VbkBlock src; src.setHeight((int32_t)nondet_u32()); src.setNonce(nondet_u64() & 0xffffffffffull); src.setTimestamp(nondet_u32());
+    auto& w = *new WriteStream(); bool enc = verif_cbool();
+    if (enc) src.toVbkEncoding(w); else src.toRaw(w);
+    VbkBlock out;
+    for (int i = 0; i < 24; i++) ((uint8_t*)out.hash_.data())[i] = nondet_u8();                 // stale memo of an earlier header
+    bool withPre = verif_cbool();
+    VbkBlock::hash_t pre; if (withPre) { for (int i = 0; i < 24; i++) ((uint8_t*)pre.data())[i] = nondet_u8(); uint8_t nz = 0; for (int i = 0; i < 24; i++) nz |= pre.data()[i]; verif_assume(nz != 0); }
+    ReadStream rs(w.data()); auto& st = *new ValidationState();
+    bool ok = enc ? DeserializeFromVbkEncoding(rs, out, st, pre) : DeserializeFromRaw(rs, out, st, pre);
+    verif_check(ok && out.getHeight() == src.getHeight() && out.getNonce() == src.getNonce(), 1);
+    uint8_t d = 0, z = 0; for (int i = 0; i < 24; i++) { d |= (uint8_t)(out.hash_.data()[i] ^ pre.data()[i]); z |= out.hash_.data()[i]; }   // pre is all-zero when none was given
+    verif_check(d == 0 || z == 0, 2);                                                                   // the handed-in hash, or an empty memo (recomputed on demand)
+    verif_cover(withPre ? 1 : 2);
+  }
+  {
+    BtcBlock src; src.setVersion(nondet_u32()); src.setNonce(nondet_u32()); src.setTimestamp(nondet_u32());
+    auto& w = *new WriteStream(); bool enc = verif_cbool();
+    if (enc) src.toVbkEncoding(w); else src.toRaw(w);
+    BtcBlock out;
+    for (int i = 0; i < 32; i++) ((uint8_t*)out.hash_.data())[i] = nondet_u8();
+    bool withPre = verif_cbool();
+    BtcBlock::hash_t pre; if (withPre) { for (int i = 0; i < 32; i++) ((uint8_t*)pre.data())[i] = nondet_u8(); uint8_t nz = 0; for (int i = 0; i < 32; i++) nz |= pre.data()[i]; verif_assume(nz != 0); }
+    ReadStream rs(w.data()); auto& st = *new ValidationState();
+    bool ok = enc ? DeserializeFromVbkEncoding(rs, out, st, pre) : DeserializeFromRaw(rs, out, st, pre);
+    verif_check(ok && out.getVersion() == src.getVersion() && out.getNonce() == src.getNonce(), 3);
+    uint8_t d = 0, z = 0; for (int i = 0; i < 32; i++) { d |= (uint8_t)(out.hash_.data()[i] ^ pre.data()[i]); z |= out.hash_.data()[i]; }
+    verif_check(d == 0 || z == 0, 4);   // (BtcBlock's VBK-encoding decoder drops the handed-in hash - it is recomputed later, which costs time but is pure)
+    verif_cover(withPre ? 3 : 4);
   }
 #else
 #error mode
